@@ -246,16 +246,16 @@ CHECKS["C17"] = cfg(
 CHECKS["C05"] = cfg(
     "C05", bin="c05", death_is_violation=True,
     technique="runtime monitoring: process-wide panic monitor + shard-death observation (abort, stack overflow, OOM) over ~100 parsing/decoding/validating entry points fed exhaustive short strings, grammar-aware random structures and corpus mutation, followed by an accessor sweep on accepted values; overflow checks and debug assertions on",
-    level_text="Nine families of entry points (DID strings and setters, timestamps/urls/collections, JWKs and the concrete verifiers, JWS in three serializations, documents/services/methods and packed state metadata, credentials/presentations, the three validators over harness-signed hostile tokens against hostile documents, status lists/bitmaps, SD-JWT/disclosures/method digests) are fed directed hostile inputs, exhaustive short strings, grammar-aware random structures and byte/JSON mutations of the repository's own fixtures; every call runs under a panic hook and every accepted value goes through all accessors, formatters and serialisers. A panic, arithmetic overflow or dying shard is a violation.",
-    min={"quick": {"evaluations": 300000, "accepted": 50000, "accessor_calls": 500000, "cases_did": 150000, "cases_core": 40000, "cases_jwk": 15000, "cases_jws": 20000,
+    level_text="Eleven families of entry points (DID strings and setters, timestamps/urls/collections, JWKs and the concrete verifiers, JWS in three serializations, documents/services/methods and packed state metadata, credentials/presentations, the three validators over harness-signed hostile tokens against hostile documents, status lists/bitmaps, SD-JWT/disclosures/method digests) are fed directed hostile inputs, exhaustive short strings, grammar-aware random structures and byte/JSON mutations of the repository's own fixtures; every call runs under a panic hook and every accepted value goes through all accessors, formatters and serialisers. Two further families cover NetworkName (serde / TryFrom, then the DID and document constructors) and the SD-JWT VC module (integrity metadata, type / claim / display / issuer metadata with a finite resolver web, harness-signed SdJwtVc tokens through parse, accessors, presentation, signature / key-binding verification and validate; cyclic extends webs and recursive-$ref schemas in isolated child processes). A panic, arithmetic overflow, stack overflow or dying shard is a violation.",
+    min={"quick": {"cases_netname": 2000, "layered_payloads": 1000, "cases_sdjwtvc": 40000, "integrity_accepted": 3000, "typemeta_accepted": 800, "vc_parsed": 1000, "vc_validated": 500, "isolated_probes": 150, "isolated_returned": 120, "evaluations": 300000, "accepted": 50000, "accessor_calls": 500000, "cases_did": 150000, "cases_core": 40000, "cases_jwk": 15000, "cases_jws": 20000,
                    "cases_docs": 25000, "cases_cred": 50000, "cases_valid": 12000, "cases_status": 2500, "cases_sdjwt": 7000, "credentials_validated": 150,
                    "presentations_validated": 100, "sd_jwt_validated": 80, "kb_jwt_validated": 70, "jws_verified": 100, "nontrivial": 250},
          "thorough": {"evaluations": 8000000, "accepted": 1200000, "accessor_calls": 10000000, "cases_valid": 300000, "nontrivial": 250}},
     thorough=[{"flavour": "checked", "shards": 16, "timeout": 3000},
               {"flavour": "asan", "tier": "quick", "shards": 8, "timeout": 3000, "args": {"scale": 1000}}],
-    assumptions=["sd_jwt_vc, jpt-bbs-plus, client-only and Stronghold code is not compiled into the harness and not covered",
+    assumptions=["jpt-bbs-plus, client-only and Stronghold code is not compiled into the harness and not covered by C05 (sd_jwt_vc is: feature sdjwtvc of the harness crate, on by default)",
                  "inputs are capped at 64 KiB and JSON nesting depth 100; allocation aborts from caller-chosen sizes are out of scope",
-                 "documented infallible constructors that expect() (IotaDID::new with an unvalidated NetworkName, from_alias_id) are not parsers and are excluded"],
+                 "IotaDID::from_alias_id panicking on a malformed alias id is documented behaviour of a constructor, not of a parser, and is excluded; IotaDID::new / placeholder / IotaDocument::new are applied to every accepted NetworkName and must not panic", "structurally self-referential inputs (cyclic extends webs, recursive $ref schemas) run in a child process of the same binary so that a stack overflow is observed instead of killing the shard"],
 )
 
 CHECKS["C14"] = cfg(
